@@ -1,4 +1,6 @@
-import AsherahVerif.Driver.Loop
-/- model driver executable of engine `metastore` (stub until the engine is built) -/
+import AsherahVerif.Driver.Metastore
+open AsherahVerif.Driver
+
+/- model driver executable of engine `metastore` (C13): reads the harness trace on stdin -/
 def main (_args : List String) : IO UInt32 := do
-  IO.eprintln "engine metastore: not built yet"; return 2
+  runEngine MetastoreEngine.engine; return 0
